@@ -142,10 +142,11 @@ def calendar_producers_rule(ctx, rule: str) -> None:
     ci = prog.function("v2version.cal_info")
     pf = prog.function("v2version.parse_field_values_to_cinfo")
     ctx.visit(ci.fq, pf.fq)
-    from sa.formats import field_table
+    from sa.formats import date_name, field_table
     tab1 = field_table(ci)
     ctx.require(tab1 is not None, "cal_info: field dict not found")
-    prod1: T.Dict[str, T.Optional[str]] = {k: _directive(v, ci.params[0]) for k, v in tab1.items()}
+    ci_date = date_name(ci)
+    prod1: T.Dict[str, T.Optional[str]] = {k: _directive(v, ci_date) for k, v in tab1.items()}
     prod2: T.Dict[str, T.Optional[str]] = {}
     blocks = [n for n in walk_no_nested(pf.node) if isinstance(n, ast.If) and unparse(n.test) == "date"]
     ctx.require(len(blocks) == 1, "parse_field_values_to_cinfo: `if date:` derivation block not found")
@@ -174,7 +175,7 @@ def calendar_producers_rule(ctx, rule: str) -> None:
                           f"`date = {txt[:70]}`: every calendar field is then re-derived from that date and replaces what was parsed", loc=pf.loc(st), witness={"version": "2021.0.1001", "pattern": "YYYY.WW.BUILD"})
     q = tab1.get("quarter")
     from sa import formats as _fm
-    qt = _fm.month_table(prog, ci, q, ci.params[0]) if q is not None else None
+    qt = _fm.month_table(prog, ci, q, ci_date) if q is not None else None
     ctx.check(rule, qt == [1, 1, 1, 2, 2, 2, 3, 3, 3, 4, 4, 4], f"cal_info: quarter of month 1..12 is {qt}",
               "v2version.cal_info: the quarter is not ((month - 1) // 3) + 1",
               f"`{unparse(q) if q is not None else None}` gives {qt} for the months 1..12 (March, June, September belong to quarters 1, 2, 3; December to 4)", loc=ci.loc(q) if q is not None else ci.loc(),
